@@ -46,6 +46,25 @@ async def scenario(loop, plan, r, out):
     stack = Stack(loop, V, window=plan.get("K", 1), fh=plan.get("fh"), fn=plan.get("fn"), fg=plan.get("fg")).install()
     out["stack"] = stack
     stack.line.merge_reads = bool(plan.get("merge"))
+    if plan.get("lose"):
+        idx, k = plan["lose"]
+        st_ = {"n": -1, "target": None, "left": k}
+        orig_write = stack.line.h2n.write
+
+        def lossy_write(data):
+            for f in refash.split_wire(data):
+                if f.get("kind") == "DATA":
+                    if not f["retx"]:
+                        st_["n"] += 1
+                        if st_["n"] == idx:
+                            st_["target"] = f["payload"]
+                    if st_["target"] is not None and f["payload"] == st_["target"] and st_["left"] > 0:
+                        st_["left"] -= 1
+                        out["lost"] = out.get("lost", 0) + 1
+                        return
+            orig_write(data)
+
+        stack.line.h2n.write = lossy_write
     if plan.get("announce") is not None:
         # an adapter that reboots when the port is opened announces that reboot (RSTACK with a power-on / external code)
         # just before it answers the host's RST; no application is attached yet, so it is nobody's business
@@ -95,6 +114,17 @@ async def scenario(loop, plan, r, out):
                 return True
             if not plan.get("retry", True):
                 return False
+            if name in ("reset", "startup_reset2") and plan.get("after_failed", True):
+                # what another task (a watchdog) does while the application has not yet reacted to the failed reset: it
+                # issues a command.  It may be refused, or time out - it must not reach the NCP framed for the old version.
+                n_req = len(stack.ncp.requests)
+                try:
+                    await asyncio.wait_for(ezsp.nop(), 0.5)
+                except asyncio.CancelledError:
+                    raise
+                except BaseException:
+                    pass
+                out.setdefault("after_failed_reset", []).extend(q for q in stack.ncp.requests[n_req:] if q[1] is None)
             await asyncio.sleep(12)  # let retransmissions and late frames drain
             if name.startswith("startup_reset") or name == "reset":
                 ezsp.stop_ezsp()
@@ -214,10 +244,19 @@ def check(plan) -> Result:
             r.bad(f"C09:wrong-version:{vtag}", f"{key}: ezsp_version/table {out[key]}, NCP is {V}; plan {plan}")
     if "version_after_reset" in out and out["version_after_reset"][1] != 4:
         r.bad("C09:no-legacy-fallback-after-reset", f"after reset() the active handler is v{out['version_after_reset'][1]}; plan {plan}")
+    if out.get("after_failed_reset") is not None:
+        r.cls("command-issued-after-a-failed-reset")
+        if out["after_failed_reset"] and not late:
+            q = out["after_failed_reset"][0]
+            r.bad("C09:wrongly-framed-request:after-failed-reset", f"NCP v{V} could not parse {q[3].hex()} at t={q[0]:.4f}, sent after a reset attempt that failed; plan {plan}")
     if stack.rx_raised:
         r.bad("C09:receive-callback-raises", f"{stack.rx_raised[0]}; plan {plan}")
     if plan.get("merge"):
         r.cls("frames-back-to-back-in-one-read")
+    if plan.get("lose"):
+        r.cls(f"one-host-frame-lost-{out.get('lost', 0)}-times-in-a-row")
+        if out.get("lost", 0) != plan["lose"][1]:
+            r.bad("C09:harness:frame-not-lost-as-planned", f"{out.get('lost')}; plan {plan}")
     # --- wire: first host write
     hw = stack.host_writes
     spont_seen_first = plan["path"] == "socket" and plan.get("spont") == "seen"
@@ -352,6 +391,12 @@ def enum_plans(quick):
                     if second == "reset":
                         out.append(dict(p, use=True, probe=True))
                         out.append(dict(p, probe=True))
+    # the same host frame lost k times in a row (k <= 4: the fifth transmission gets through) - the link's retry budget
+    # covers it, so bring-up must succeed; nothing else is wrong with the line
+    for v in ([4, 8, 13] if quick else VERSIONS):
+        for tag_i in range(3):
+            for k in ((2, 4) if quick else (1, 2, 3, 4)):
+                out.append({"v": v, "path": "serial", "second": "reset", "lose": [tag_i, k]})
     depth = 10 if quick else 70
     vs = [4, 7, 8, 13, 14, 15] if quick else VERSIONS
     for v in vs:
